@@ -16,6 +16,7 @@ import collections
 import hashlib
 import inspect
 import json
+import warnings
 
 import networkx as nx
 import numpy as np
@@ -45,7 +46,7 @@ SIR_SIS = [s for s in simcases.SIMS if simcases.SIMS[s][1] != "generic"]
 
 def plan(tier):
     if tier == "quick":
-        return [("sims", 1200), ("ode_graph", 500), ("ode_arrays", 300)]
+        return [("sims", 5000), ("ode_graph", 3000), ("ode_arrays", 2000)]
     return [("sims", 80000), ("ode_graph", 30000), ("ode_arrays", 20000)]
 
 
@@ -245,8 +246,12 @@ def one_ode_graph(case):
     for rep in range(2):
         before = {x: callseq.snap(pool[x]) for x in names}
         try:
-            with np.errstate(all="ignore"):
+            with np.errstate(all="ignore"), warnings.catch_warnings(record=True) as wlist:
+                warnings.simplefilter("always")
                 val = call_ode_graph(nm, G, case, kw)
+            if any("ODEint" in type(w.message).__name__ or "lsoda" in str(w.message).lower() for w in wlist):
+                # the integrator gave up: its output is unspecified (C06's business), nothing to compare
+                return [], "integrator-warning"
         except Exception as e:
             if rep == 0:
                 # an entry point that rejects this input is C06's business, not C19's
@@ -342,8 +347,11 @@ def one_ode_arrays(case):
     for rep in range(2):
         before = {x: callseq.snap(pool[x]) for x in names}
         try:
-            with np.errstate(all="ignore"):
+            with np.errstate(all="ignore"), warnings.catch_warnings(record=True) as wlist:
+                warnings.simplefilter("always")
                 val = fn(*args, **kwargs)
+            if any("ODEint" in type(w.message).__name__ or "lsoda" in str(w.message).lower() for w in wlist):
+                return [], "integrator-warning"
         except Exception as e:
             if rep == 0:
                 return [], "rejected:%s" % type(e).__name__
